@@ -70,10 +70,13 @@ def chainedCommit (s : Store) (bLock : Block) (block : Block) : Option Block × 
         else (none, bLock')
 
 /-- `ChainedHotStuff.VoteRule(_, proposal)`; the view argument is ignored; `Get` is called
-directly (no zero-hash guard). -/
+directly (no zero-hash guard).  No vote when the block to lock on (the one certified by
+qcBlock's QC) cannot be obtained. -/
 def chainedVote (s : Store) (bLock : Block) (block : Block) : Bool :=
   match bcGet s block.qcHash with
-  | some qcBlock => if qcBlock.view > bLock.view then true else extends_ s block bLock
+  | some qcBlock =>
+    if qcBlock.qcHash ≠ 0 ∧ (bcGet s qcBlock.qcHash).isNone then false
+    else if qcBlock.view > bLock.view then true else extends_ s block bLock
   | none => extends_ s block bLock
 
 /-! ### fasthotstuff.go -/
@@ -106,7 +109,9 @@ def simpleVote (s : Store) (locked : Block) (view : Nat) (block : Block) : Bool 
   else
     match bcGet s block.qcHash with
     | none => false
-    | some parent => if parent.view < locked.view then false else true
+    | some parent =>
+      if parent.qcHash ≠ 0 ∧ (bcGet s parent.qcHash).isNone then false   -- the block to lock on is missing
+      else if parent.view < locked.view then false else true
 
 /-- `SimpleHotStuff.CommitRule(block)`: result and `hs.locked` afterwards.
     `gp, ok := Get(..); if ok && gp.View() > locked.View() { locked = gp } else if !ok { return nil }` -/
